@@ -59,6 +59,67 @@ def random_op(rng):
     return op(items, inbound, rng.choice([0, 1]), rng.choice([0, 1, 1]) if any(i in ("ro",) for i in items) else 0)
 
 
+# ---------------------------------------------------------------- `dl`: TcpTransport::open when time passes (round gtcp)
+#   dl a=<s|r|k>{1..4} t=<ms> [cancel=<ms>]
+# a real TcpTransport (connection_open_timeout = t ms, max_parallel_dials = 1) opens one loopback address per letter:
+# s = a listener that accepts the TCP connection and never speaks (stalls until the attempt's own timeout), r = refused,
+# k = a real transport that answers. The event stream is polled for 2t + 1.5 s. `cancel`: Transport::cancel(id) after
+# that many ms. Observation `D=openfail|opened|silent handles=<n> lost=<n>`. Model: Model/Tcp/Poll.lean `openRun` /
+# `openFuture` (the overall deadline DIAL_DEADLINE_MULTIPLIER * t resolves the future to Failed; only a cancel in time
+# yields Canceled = silence).
+# Only shapes whose outcome does not hinge on a race are generated: an answering address has at most one stalling
+# address ahead of it (it is reached at t, well before the deadline 2t).
+DL_FIXED = ["dl a=sss t=300", "dl a=ss t=250", "dl a=rss t=300", "dl a=srs t=200", "dl a=rr t=300", "dl a=sk t=300",
+            "dl a=k t=300", "dl a=sss t=300 cancel=100", "dl a=rr t=300 cancel=100", "dl a=ssss t=200"]
+DL_MALFORMED = ["dl a=x t=300", "dl a=sssss t=300", "dl a=s t=50", "dl a=s", "dl t=300", "dl a=s t=300 cancel=x", "dl bogus", "dl"]
+
+
+def dl_random(rng):
+    t = rng.choice([200, 250, 300, 400])
+    shape = rng.choice(["stall", "stall", "stall", "mixed", "answer", "cancel"])
+    if shape == "stall":
+        a = "".join(rng.choice("ssr") for _ in range(rng.choice([2, 3, 4])))
+    elif shape == "mixed":
+        a = "".join(rng.choice("sr") for _ in range(rng.choice([1, 2, 3])))
+    elif shape == "answer":
+        a = rng.choice(["k", "rk", "sk", "rsk", "srk", "rrk", "ks", "kss"])
+    else:
+        a = "s" + "".join(rng.choice("sr") for _ in range(rng.choice([1, 2])))
+        return f"dl a={a} t={t} cancel={rng.choice([50, 100])}"
+    return f"dl a={a} t={t}"
+
+
+def dl_cases(rng, tier):
+    n = {"quick": 4, "thorough": 60, "search": 10}[tier]
+    ops = DL_FIXED + [dl_random(rng) for _ in range(n)]
+    rng.shuffle(ops)
+    return [ops[i:i + 2] for i in range(0, len(ops), 2)] + [list(DL_MALFORMED)]
+
+
+def dl_oracle(case, out, i, v):
+    t = case[i].split()
+    o = out[i]
+    if not o.startswith("D=") or o.startswith("D=env:"):
+        return
+    a = dict(x.split("=", 1) for x in t[1:] if "=" in x)
+    kinds = a.get("a", "")
+    d = dict(x.split("=", 1) for x in o.split() if "=" in x)
+    what = d.get("D")
+    setup = (f"TcpTransport::open(id, {len(kinds)} loopback addresses [{kinds}: s = accepts and never speaks, r = refused, "
+             f"k = answers]) with connection_open_timeout = {a.get('t')} ms, max_parallel_dials = 1")
+    if what == "silent" and "cancel" not in a:
+        v("open-deadline-silent", f"{setup}: the event stream produced neither OpenFailure nor ConnectionOpened within "
+          f"2 x {a.get('t')} ms + 1.5 s although nobody cancelled the attempt — the accepted dial ends in silence "
+          f"(the manager keeps the peer in Opening for ever)", i)
+    if what == "opened" and "k" not in kinds:
+        v("unowed-report", f"{setup}: ConnectionOpened although no address answers", i)
+    if what in ("other", "closed"):
+        v("unowed-report", f"{setup}: unexpected item from the event stream ({o!r})", i)
+    if d.get("handles") not in (None, "0") or d.get("lost") not in (None, "0"):
+        v("left-behind", f"{setup}: after the outcome {what!r} the transport still holds {d.get('handles')} cancel handle(s) / "
+          f"{d.get('lost')} queued future(s) for the attempt", i)
+
+
 MALFORMED = ["pn q=zz", "pn q=ci,,cf", "pn in=9", "pn q=ci neg=2", "pn q=ci acc=x", "pn bogus", "pn q=" + ",".join(["ci"] * 13), "pn"]
 
 
@@ -68,7 +129,7 @@ def gen_cases(rng, tier):
     rng.shuffle(ops)
     cases = [ops[i:i + 6] for i in range(0, len(ops), 6)]
     cases.append(list(MALFORMED))
-    return cases
+    return cases + dl_cases(rng, tier)
 
 
 def parse(o):
@@ -100,6 +161,9 @@ def oracle(case, out):
 
     for i, line in enumerate(case):
         t = line.split()
+        if t and t[0] == "dl" and i < len(out):
+            dl_oracle(case, out, i, v)
+            continue
         if not t or t[0] != "pn" or i >= len(out):
             continue
         d = parse(out[i])
@@ -154,6 +218,11 @@ def oracle(case, out):
 
 def stats(case, out, acc):
     for line, o in zip(case, out):
+        if line.startswith("dl "):
+            bump(acc, "dl:" + ("cancel:" if "cancel=" in line else "") + (o.split()[0] if o else "?"))
+            if "cancel=" not in line and line.split("a=")[-1].split()[0].count("s") >= 2 and "k" not in line.split("a=")[-1].split()[0]:
+                bump(acc, "dl:deadline-reached")
+            continue
         if not line.startswith("pn"):
             continue
         d = parse(o)
